@@ -115,7 +115,7 @@ def check_append_absent(ctx, rule: str, select=lambda fi: True):
         aliases = _aliases(fi, recv)
         guarded = any(is_nonmembership(t, p, recv, val, aliases) for t, p in conds)
         c = construct(fi, f"{recv}.append({val})")
-        if _plain_list_receiver(fi, call.func.value) or isinstance(call.args[0], (ast.List, ast.ListComp, ast.Dict, ast.DictComp, ast.Tuple)) or (
+        if _setdefault_list(call.func.value) or _plain_list_receiver(fi, call.func.value) or isinstance(call.args[0], (ast.List, ast.ListComp, ast.Dict, ast.DictComp, ast.Tuple)) or (
                 isinstance(call.args[0], ast.BinOp) and isinstance(call.args[0].op, ast.Add) and any(isinstance(x, ast.List) for x in (call.args[0].left, call.args[0].right))):
             # a plain Python list built in this function (duplicates are harmless there), or a
             # non-scalar element (the members of an order are scalars): not an order
@@ -132,6 +132,12 @@ def check_append_absent(ctx, rule: str, select=lambda fi: True):
                "append of a value that may already be a member: GroupedList.append resets its group to [value] "
                "and duplicates the leader (members of the existing group vanish from `content`)")
     return n
+
+
+def _setdefault_list(recv: ast.expr) -> bool:
+    """`d.setdefault(k, [])`: the receiver of the append is a plain list stored in a dict."""
+    return (isinstance(recv, ast.Call) and isinstance(recv.func, ast.Attribute) and recv.func.attr == "setdefault" and len(recv.args) == 2
+            and isinstance(recv.args[1], (ast.List, ast.ListComp)))
 
 
 def _plain_list_receiver(fi: FunctionInfo, recv: ast.expr) -> bool:
